@@ -365,6 +365,54 @@ func (w *world) tx(op string, attack bool, msgs []sdk.Msg, signers []int) abci.T
 	return res
 }
 
+// txFeePayer: msgs signed by [signers], the fee charged to account fp named in the transaction's
+// fee-payer field; fp signs as the last signer when [fpSigns], otherwise its signature is missing.
+func (w *world) txFeePayer(op string, attack bool, msgs []sdk.Msg, signers []int, fp int, fpSigns bool) abci.TxResult {
+	pre := w.snapshot()
+	txb := w.c.Enc.TxConfig.NewTxBuilder()
+	var res abci.TxResult
+	all := append([]int{}, signers...)
+	dup := false
+	for _, s := range signers {
+		dup = dup || s == fp
+	}
+	if fpSigns && !dup {
+		all = append(all, fp)
+	}
+	if err := txb.SetMsgs(msgs...); err != nil {
+		res = abci.TxResult{Code: 1 << 30, Log: "build: " + err.Error()}
+	} else {
+		txb.SetFeeAmount(abci.DefaultFee())
+		txb.SetGasLimit(10_000_000)
+		txb.SetFeePayer(w.addr(fp))
+		var privs []cryptotypes.PrivKey
+		var nums, seqs []uint64
+		for _, s := range all {
+			privs = append(privs, w.c.Accounts[s].Priv)
+			acc := w.c.App.AccountKeeper.GetAccount(w.ctx(), w.addr(s))
+			if acc != nil {
+				nums, seqs = append(nums, acc.GetAccountNumber()), append(seqs, acc.GetSequence())
+			} else {
+				nums, seqs = append(nums, 0), append(seqs, 0)
+			}
+		}
+		bz, err := abci.SignTx(w.c.Enc.TxConfig, txb, privs, nums, seqs)
+		if err != nil {
+			res = abci.TxResult{Code: 1 << 30, Log: "sign: " + err.Error()}
+		} else {
+			res = w.c.DeliverRaw(bz)
+		}
+	}
+	post := w.snapshot()
+	ok := res.Code == 0 && res.Panic == ""
+	log := res.Log
+	if len(log) > 160 {
+		log = log[:160]
+	}
+	w.emit(0, op, attack, msgs, all, ok, log, pre, post, nil, nil, "")
+	return res
+}
+
 // txForged: the messages name [victim] as their signer; the attacker signs with his own key using
 // the victim's account number and sequence (the strongest forgery available without the key).
 func (w *world) txForged(op string, msgs []sdk.Msg, attacker, victim int) abci.TxResult {
